@@ -38,6 +38,7 @@ func (fr *frame) call(st *PState, site ssa.Instruction, c *ssa.CallCommon, k fun
 	for _, a := range c.Args {
 		args = append(args, fr.val(st, a))
 	}
+	fr.curSSAArgs = c.Args
 	if f := c.StaticCallee(); f != nil {
 		if mc, ok := c.Value.(*ssa.MakeClosure); ok {
 			cv := fr.val(st, mc).(*ClosureVal)
@@ -92,20 +93,62 @@ func (fr *frame) inline(st *PState, fn *ssa.Function, args []Val, k func(*PState
 			return
 		}
 	}
-	fr.top.inlined[ShortName(fn.String())] = true
+	// run the callee collecting its outcomes; if it leaves the supported subset, fall back to a havoc of the
+	// call (sound over-approximation) instead of giving up on the whole function
+	type outcome struct {
+		st  *PState
+		res Val
+	}
+	var outs []outcome
+	var pans []struct {
+		st  *PState
+		why string
+	}
+	backup := st.Clone()
+	nObls := len(fr.top.obls)
 	nf := &frame{ex: fr.ex, fn: fn, depth: fr.depth + 1, top: fr.top, stack: append(append([]string(nil), fr.stack...), fn.String())}
 	nf.ret = func(st2 *PState, results []Val, site int) {
 		switch len(results) {
 		case 0:
-			k(st2, T{S: "unit", Sort: SUnit})
+			outs = append(outs, outcome{st2, T{S: "unit", Sort: SUnit}})
 		case 1:
-			k(st2, results[0])
+			outs = append(outs, outcome{st2, results[0]})
 		default:
-			k(st2, &TupleVal{Elems: results})
+			outs = append(outs, outcome{st2, &TupleVal{Elems: results}})
 		}
 	}
-	nf.pan = fr.pan
-	nf.execBody(st, args)
+	nf.pan = func(st2 *PState, why string) {
+		pans = append(pans, struct {
+			st  *PState
+			why string
+		}{st2, why})
+	}
+	failed := ""
+	func() {
+		defer func() {
+			if r := recover(); r != nil {
+				if u, ok := r.(unsupported); ok {
+					failed = u.why
+					return
+				}
+				panic(r)
+			}
+		}()
+		nf.execBody(st, args)
+	}()
+	if failed != "" {
+		fr.top.obls = fr.top.obls[:nObls]
+		fr.top.notes["callee "+ShortName(fn.String())+" left the subset ("+failed+"): call havoced"] = true
+		fr.havocCall(backup, fn.String(), fn.Signature, args, k)
+		return
+	}
+	fr.top.inlined[ShortName(fn.String())] = true
+	for _, p := range pans {
+		fr.pan(p.st, p.why)
+	}
+	for _, o := range outs {
+		k(o.st, o.res)
+	}
 }
 
 // callFunction resolves a statically known callee by qualified name.
@@ -114,7 +157,7 @@ func (fr *frame) callFunction(st *PState, qname string, fn *ssa.Function, sig *t
 	// guard obligations attached to this callee by the top-level contract
 	fr.checkGuards(st, qname, sig, args)
 	if m, ok := libModels[qname]; ok {
-		lc := &libCall{fr: fr, st: st, args: args, sig: sig, name: qname}
+		lc := &libCall{fr: fr, st: st, args: args, sig: sig, name: qname, ssaArgs: fr.curSSAArgs}
 		if res, handled := m(lc); handled {
 			ex.Assumed["lib:"+qname] = true
 			k(st, res)
@@ -131,6 +174,23 @@ func (fr *frame) callFunction(st *PState, qname string, fn *ssa.Function, sig *t
 	}
 	if fn == nil {
 		fn = ex.W.Funcs[qname]
+	}
+	if pv := fr.top.contract.Flags["pure"]; pv != "" {
+		for _, sub := range strings.Split(pv, ",") {
+			if sub = strings.TrimSpace(sub); sub != "" && strings.Contains(qname, sub) {
+				ex.Assumed["assumed pure (no effect on chain state or heap): "+ShortName(qname)] = true
+				k(st, fr.freshResults(st, sig, qname))
+				return
+			}
+		}
+	}
+	if hv := fr.top.contract.Flags["havoc"]; hv != "" {
+		for _, sub := range strings.Split(hv, ",") {
+			if sub = strings.TrimSpace(sub); sub != "" && strings.Contains(qname, sub) {
+				fr.havocCall(st, qname, sig, args, k)
+				return
+			}
+		}
 	}
 	if fn != nil && fn.Blocks != nil && fr.depth < ex.Opts.MaxInline {
 		fr.inline(st, fn, args, k)
@@ -323,11 +383,12 @@ func (fr *frame) applyContract(st *PState, ct *Contract, sig *types.Signature, f
 }
 
 // havocModifies havocs one item of a modifies clause at a call site.
-//   *p                      pointee of pointer parameter p
-//   state(ctx)              the whole State of ctx's cell
-//   get(ctx, "store", key)  one key
-//   trace                   the ghost event trace
-//   heap[T]                 the heap of pointee type T
+//
+//	*p                      pointee of pointer parameter p
+//	state(ctx)              the whole State of ctx's cell
+//	get(ctx, "store", key)  one key
+//	trace                   the ghost event trace
+//	heap[T]                 the heap of pointee type T
 func (fr *frame) havocModifies(st *PState, env *SpecEnv, item string, ct *Contract) {
 	ex := fr.ex
 	item = strings.TrimSpace(item)
@@ -482,7 +543,7 @@ func (fr *frame) checkNoAlias(st *PState, ct *Contract, sig *types.Signature, ar
 	}
 	for i := range ptypes {
 		pi, ok := ptypes[i].Underlying().(*types.Pointer)
-		if !ok || i >= len(args) {
+		if !ok || i >= len(args) || isBigIntPtr(ptypes[i]) {
 			continue
 		}
 		for j := i + 1; j < len(ptypes) && j < len(args); j++ {
